@@ -30,7 +30,8 @@ def IdleCap (v : View) : Prop := v.idle.length ≤ v.maxIdle
 
 /-- what is known about a worker at the moment it is handed to a borrower -/
 structure Handover where
-  /-- the pool's last health check found the process running (a freshly spawned process counts) -/
+  /-- the pool's last health check found the process running (a freshly spawned process counts); that this check is made
+  by the borrowing thread for this very hand-over is `C32_handover_checked` -/
   lastPollAlive : Bool
   /-- the connection is at a message boundary: nothing unread in either direction, the server waits for a request -/
   synced : Bool
